@@ -2,7 +2,7 @@
    Statements only; proofs in Parse_proofs.v. [serve] is the model of readPacket + the parsers +
    the dispatch of BaseClient.serve on a byte stream; a Go panic is the explicit outcome
    [Panic]/[EndPanic]; [EvAlloc n] records every make([]byte, n) for a packet body. *)
-From MQ Require Import Base Codec Inbound Parse Parse_proofs.
+From MQ Require Import Base Codec Inbound Parse ParseSpec Parse_proofs ParsePending ParsePending_proofs.
 Open Scope N_scope.
 
 (* for every byte string handed to each packet parser: no panic *)
@@ -64,6 +64,69 @@ Theorem C06_read_packet_frame : forall typ flag body b rest, typ < 16 -> flag < 
   read_packet (b ++ rest) = (RP_ok typ flag body rest, Some (len body)).
 Proof. exact read_packet_frame. Qed.
 
+(* the same for EVERY byte stream, without assuming a shape: the link ends with a protocol error
+   exactly when the stream, cut into frames by the protocol's framing, contains a malformed packet
+   or a fifth length byte ([has_malformed], ParseSpec.v); otherwise it runs until the peer closes *)
+Theorem C06_malformed_iff_protocol_error : forall handler s,
+  exists e, snd (serve handler s) = EndErr e /\
+    if has_malformed s then protocol_error e else (e = EEOF \/ e = EUnexpectedEOF).
+Proof. exact serve_classified. Qed.
+
+(* "U+0000 in a topic": for ALL byte strings pre, post (well-formed UTF-8 or not: multi-byte
+   characters, stray continuation bytes, truncated and overlong sequences, FF) a byte 00 between
+   them decodes to the rune U+0000 under Go's []rune(string) conversion ... *)
+Theorem C06_nul_decodes_anywhere : forall pre post, In 0 (decode_runes (pre ++ 0 :: post)).
+Proof. intros pre post. apply decode_runes_nul, in_or_app. right. left. reflexivity. Qed.
+
+(* ... so a PUBLISH whose topic contains it anywhere is malformed in the sense of
+   C06_prefix_then_malformed and refused by the parser with a protocol error *)
+Theorem C06_nul_anywhere_in_topic : forall flag hi lo pre post r,
+  N.to_nat (hi * 256 + lo) = length (pre ++ 0 :: post) ->
+  malformed 3 flag (hi :: lo :: (pre ++ 0 :: post) ++ r) = true /\
+  exists e, parse_publish flag (hi :: lo :: (pre ++ 0 :: post) ++ r) = Err e /\ protocol_error e.
+Proof. exact publish_nul_anywhere. Qed.
+
+(* requests in flight. The goroutine that called Subscribe with any number of filters never
+   panics, whatever number of return codes the SUBACK carries (the copy loop of subscribe.go:105
+   is bounded by the peer's count; [copy_codes_surplus_panics] shows the count check is what
+   keeps its index in range) ... *)
+Theorem C06_suback_any_count_no_panic : forall subs codes, subscribe_complete subs codes <> Panic.
+Proof. exact subscribe_complete_no_panic. Qed.
+
+(* ... a count that differs from the request is ErrInvalidSubAck (and the transport is closed) *)
+Theorem C06_suback_count : forall subs codes,
+  subscribe_complete subs codes =
+  if Nat.eqb (length codes) (length subs) then Ok codes else Err CEInvalidSubAck.
+Proof. exact subscribe_complete_spec. Qed.
+
+(* for every set of requests in flight and every byte stream the peer answers with: neither the
+   reader nor a calling goroutine panics, the loop ends, and every call returns *)
+Theorem C06_inflight_no_panic : forall handler pd s, snd (serve_with handler pd s) <> EndPanic.
+Proof. exact serve_with_no_panic. Qed.
+
+Theorem C06_inflight_ends : forall handler pd s, exists e, snd (serve_with handler pd s) = EndErr e.
+Proof. exact serve_with_ends. Qed.
+
+Theorem C06_inflight_all_return : forall handler pd s c, In c (callers pd) ->
+  exists r, In (PdDone c r) (fst (serve_with handler pd s)).
+Proof. exact serve_with_all_return. Qed.
+
+(* a SUBACK with the identifier of a Subscribe in flight and a wrong number of return codes: that
+   call gets ErrInvalidSubAck, the link ends, every other call returns ErrClosedTransport *)
+Theorem C06_inflight_wrong_count : forall handler c id subs codes x rest pd,
+  length codes <> length subs -> id < 65536 ->
+  pack 144 (id / 256 :: id mod 256 :: codes) = Some x ->
+  serve_with handler ((c, WSub subs, id) :: pd) (x ++ rest)
+  = (PdSv (EvAlloc (len (id / 256 :: id mod 256 :: codes))) :: PdSv (EvAck 9 id)
+       :: PdDone c CRInvalidSubAck :: close_all pd, EndErr EEOF).
+Proof. exact serve_with_wrong_count. Qed.
+
+(* with nothing in flight the extended loop is the loop the theorems above speak about *)
+Theorem C06_inflight_conservative : forall f handler sb s,
+  serve_pending f handler sb [] s
+  = (lift_sv (fst (serve_stream f handler sb s)), snd (serve_stream f handler sb s)).
+Proof. exact serve_pending_nil. Qed.
+
 Print Assumptions C06_parsers_no_panic.
 Print Assumptions C06_no_panic.
 Print Assumptions C06_fuel_irrelevant.
@@ -73,3 +136,14 @@ Print Assumptions C06_prefix_then_overlong.
 Print Assumptions C06_prefix_then_truncated.
 Print Assumptions C06_wellformed_runs_to_eof.
 Print Assumptions C06_read_packet_frame.
+
+Print Assumptions C06_nul_decodes_anywhere.
+Print Assumptions C06_nul_anywhere_in_topic.
+Print Assumptions C06_suback_any_count_no_panic.
+Print Assumptions C06_suback_count.
+Print Assumptions C06_inflight_no_panic.
+Print Assumptions C06_inflight_ends.
+Print Assumptions C06_inflight_all_return.
+Print Assumptions C06_inflight_wrong_count.
+Print Assumptions C06_inflight_conservative.
+Print Assumptions C06_malformed_iff_protocol_error.
